@@ -206,8 +206,11 @@ def gen_cases(rec, rng, tier):
         n1, n2 = rng.randint(1, 5), rng.randint(1, 5)
         style = rng.choice(['q_names', 'random_names', 'mixed'])
         if style == 'q_names':
-            pool = ['q%d' % i for i in range(10)]
-            rng.shuffle(pool)
+            lo = rng.choice([0, 0, 3, 7, 95])
+            pool = ['q%d' % i for i in range(lo, lo + 13)]
+            if rng.random() < 0.5:
+                rng.shuffle(pool)           # else: consecutive names q<lo>.. (spanning digit lengths when there are many)
+            n1, n2 = rng.randint(1, 7), rng.randint(1, 6)
             names1, names2 = pool[:n1], pool[n1:n1 + n2]
         elif style == 'random_names':
             names1 = fag.random_names(rng, n1)
@@ -215,11 +218,11 @@ def gen_cases(rec, rng, tier):
         else:
             names1 = ['q%d' % i for i in range(n1)]
             names2 = ['p%d' % i for i in range(n2)]
-        R1 = fag.random_nfa(rng, n1, k, eps_density=rng.choice([0, 0.3, 0.8]), names=names1)
+        R1 = fag.random_nfa(rng, len(names1), k, eps_density=rng.choice([0, 0.3, 0.8]), names=names1)
         R2 = fag.random_nfa(rng, len(names2), rng.randint(1, 2), eps_density=rng.choice([0, 0.3, 0.8]), names=names2)
         eps = rng.choice(['', '', '_', 'ε', 'e'])
         yield {'cls': 'random_pair/' + style, 'ref1': R1, 'ref2': R2, 'eps': eps, 'gen': rng.choice(['default', 'default', 'explicit', 'collide_default']),
-               'start': rng.randint(0, 9), 'container': rng.choice(adapt.NFA_KINDS), 'parsed': eps != '' and rng.random() < 0.3}
+               'start': rng.choice([0, 0, 1, 3, 9, 10, 11, 99]), 'container': rng.choice(adapt.NFA_KINDS), 'parsed': eps != '' and rng.random() < 0.3}
 
 
 def run(rec, rng, tier):
